@@ -49,6 +49,28 @@ theorem reconnect_preserves_lookup {μ : Type} (cur : List PId) (o : Optim μ) (
     ∃ o', reconnect cur o = some o' ∧ ∀ p, lookup p o'.state = lookup p o.state :=
   ⟨o, reconnect_preserves cur o hp hne hnd hin, fun _ => rfl⟩
 
+/-- **device moves that create new parameter tensors** (the other branch of the repaired code):
+none of the tensors carrying state survives, old and new parameter lists correspond position by
+position — then the parameter at each position looks up exactly the moments of the old
+parameter at that position, *whichever parameters have state* -/
+theorem reconnect_moved {μ : Type} (cur : List PId) (o : Optim μ) (hlen : cur.length = o.params.length) (hne : cur ≠ [])
+    (hndo : o.params.Nodup) (hndc : cur.Nodup) (hnd : (o.state.map (·.1)).Nodup)
+    (hin : ∀ k ∈ o.state.map (·.1), k ∈ o.params ∧ k ∉ cur) :
+    ∃ o', reconnect cur o = some o' ∧ o'.params = cur ∧
+      ∀ a b, (a, b) ∈ o.params.zip cur → lookup b o'.state = lookup a o.state := by
+  have he : cur.isEmpty = false := by cases cur <;> simp_all
+  refine ⟨_, by simp only [reconnect, he]; rfl, rfl, ?_⟩
+  intro a b hab
+  have h := rekey_moved cur o.params (by omega) hndo hndc o.state [] hnd hin a b hab
+  simp only at h ⊢
+  rw [h]
+  cases lookup a o.state <;> simp [lookup]
+
+/-- non-vacuity of `reconnect_moved`: parameters [0,1] replaced by new tensors [5,6], only
+parameter 1 has state -/
+example : ∃ o', reconnect [5, 6] ({ params := [0, 1], state := [(1, 7)], lr := 0, hyper := 0 } : Optim Nat) = some o' ∧
+    lookup 6 o'.state = some 7 ∧ lookup 5 o'.state = none := ⟨_, rfl, by decide, by decide⟩
+
 /-- the positional re-keying of the code before the repair keeps the moments **if** the state
 keys are the leading parameters in parameter order (in particular if every parameter has
 state) -/
